@@ -25,23 +25,31 @@ const ARCHS: [(&str, &str); 32] = [
 
 fn main() {
     println!("cargo:rerun-if-changed=build.rs");
-    // narrow (default): 4 archetypes with 1..4 columns; wide: 16; with 32_components: 32
+    // Which arities exist as archetypes: narrow (default) 1..4; wide 1..16; 32_components adds 17, 24, 32
+    // (with wide: every arity 1..32).
     let big = env::var("CARGO_FEATURE_32_COMPONENTS").is_ok();
     let wide = env::var("CARGO_FEATURE_WIDE").is_ok();
-    let n = if big { 32 } else if wide { 16 } else { 4 };
+    let arities: Vec<usize> = match (wide, big) {
+        (false, false) => vec![1, 2, 3, 4],
+        (true, false) => (1..=16).collect(),
+        (false, true) => vec![1, 2, 3, 4, 17, 24, 32],
+        (true, true) => (1..=32).collect(),
+    };
+    let n = arities.len();
     let mut s = String::new();
 
     // ---- world declaration ----
     s.push_str("ecs_world! {\n    ecs_name!(W);\n");
-    for a in 0..n {
+    for (a, ar) in arities.iter().enumerate() {
         if a == 0 {
             s.push_str("    #[archetype_id(5)]\n");
         }
-        if a == 15 || (n == 4 && a == 3) {
+        if a == 3 {
+            // ids continue from 200 (non-contiguous on purpose)
             s.push_str("    #[archetype_id(200)]\n");
         }
-        write!(s, "    ecs_archetype!({}", ARCHS[a].0).unwrap();
-        for c in 0..=a {
+        write!(s, "    ecs_archetype!({}", ARCHS[ar - 1].0).unwrap();
+        for c in 0..*ar {
             write!(s, ", {}", COLS[c].0).unwrap();
         }
         s.push_str(");\n");
@@ -49,9 +57,9 @@ fn main() {
     s.push_str("}\n\n");
 
     // ---- per-archetype implementations ----
-    for a in 0..n {
-        write!(s, "impl_arch!({}, {}, {}, [", ARCHS[a].0, ARCHS[a].1, a).unwrap();
-        for c in 0..=a {
+    for (a, ar) in arities.iter().enumerate() {
+        write!(s, "impl_arch!({}, {}, {}, {}, [", ARCHS[ar - 1].0, ARCHS[ar - 1].1, a, ar).unwrap();
+        for c in 0..*ar {
             write!(s, "({}, {}, {}), ", COLS[c].0, COLS[c].1, c).unwrap();
         }
         s.push_str("]);\n");
@@ -60,16 +68,17 @@ fn main() {
     // ---- dispatch ----
     writeln!(s, "pub const NARCH: usize = {};", n).unwrap();
     s.push_str("pub const ARCH_NAMES: [&str; NARCH] = [");
-    for a in 0..n {
-        write!(s, "\"{}\", ", ARCHS[a].0).unwrap();
+    for ar in &arities {
+        write!(s, "\"{}\", ", ARCHS[ar - 1].0).unwrap();
     }
     s.push_str("];\n");
+    writeln!(s, "pub const ARITIES: [usize; NARCH] = {:?};", arities).unwrap();
     s.push_str("macro_rules! with_arch {\n    ($idx:expr, $A:ident => $body:expr) => {\n        match $idx {\n");
-    for a in 0..n {
+    for (a, ar) in arities.iter().enumerate() {
         writeln!(
             s,
             "            {} => {{ type $A = $crate::world::{}; $body }}",
-            a, ARCHS[a].0
+            a, ARCHS[ar - 1].0
         )
         .unwrap();
     }
@@ -77,8 +86,8 @@ fn main() {
 
     // ---- per-world helpers over all archetypes ----
     s.push_str("pub fn dump_all(w: &W) -> Vec<VerifDump> {\n    vec![\n");
-    for a in 0..n {
-        writeln!(s, "        <{} as Arch>::dump(w),", ARCHS[a].0).unwrap();
+    for ar in &arities {
+        writeln!(s, "        <{} as Arch>::dump(w),", ARCHS[ar - 1].0).unwrap();
     }
     s.push_str("    ]\n}\n");
 
